@@ -243,9 +243,19 @@ var c12ImportBases = []string{
 	"import (\n\t\"strings\"\n\thp \"helper.tsh\"\n\th2 \"helper.tsh\"\n)\nprint(strings.Repeat(hp.Name(), h2.Twice(1)))\n",
 }
 
+// programs whose string literals span several lines (raw strings, and interpreted strings with a literal line break,
+// which this lexer accepts)
+var c12MultilineBases = []string{
+	"banner := `line one\nline two`\nprint(len(banner))\nprint(banner)\n",
+	"a := `x\n\n  y  \n`\nb := \"p\nq\"\nprint(len(a), len(b))\nif a != b {\n\tprint(a + b)\n}\n",
+	"func f(s string) string {\n\treturn s + `\n--\n`\n}\nprint(f(`a\nb`))\nfor i, c := range `m\nn` {\n\tprint(i, c)\n}\n",
+	"s := []string{`one\ntwo`, \"three\nfour\"}\nprint(s[0], s[1])\nwrite(\"o.txt\", `l1\nl2`)\n",
+	"/* block\ncomment */\nx := `r\ns` // c\nswitch x {\ncase `r\ns`:\n\tprint(1)\ndefault:\n\tprint(2)\n}\n",
+}
+
 func TestC12(t *testing.T) {
 	r, e := start(t, "C12",
-		"base programs: generated accepted programs (scalars, functions, slices, strings, switch, every loop form, input/read/write/exists and program calls, error/nil spellings), the repository suite's sources, programs with single and grouped imports, and rejected programs (token-edited or type-corrupted); each held as a token stream and re-rendered with random layout: zero/one/many blanks or tabs between tokens (zero only where the token grammar keeps them apart; a-1 is a legal re-layout of a - 1), inline block comments, trailing blanks, // comments before line breaks, LF/CRLF/mixed, 0-3 blank or comment-only lines at any existing line break (after '{', after 'case x:', inside import groups, at the start), any indentation, final newline as in the original. Oracle: same accept/reject for both targets and byte-identical scripts. Non-trivial = at least 3 layout edits of at least 2 kinds; distinct by re-laid-out text.",
+		"base programs: generated accepted programs (scalars, functions, slices, strings, switch, every loop form, input/read/write/exists and program calls, error/nil spellings), the repository suite's sources, programs with single and grouped imports, programs whose string literals span several lines, and rejected programs (token-edited or type-corrupted); each held as a token stream and re-rendered with random layout: zero/one/many blanks or tabs between tokens (zero only where the token grammar keeps them apart; a-1 is a legal re-layout of a - 1), inline block comments, trailing blanks, // comments before line breaks, LF/CRLF/mixed, 0-3 blank or comment-only lines at any existing line break (after '{', after 'case x:', inside import groups, at the start), any indentation, final newline as in the original; plus the whole file saved with CRLF (line breaks inside multi-line string literals included). Oracle: same accept/reject for both targets and byte-identical scripts. Non-trivial = at least 3 layout edits of at least 2 kinds; distinct by re-laid-out text.",
 		[]string{"line breaks are only added next to existing line breaks (newlines are tokens of this grammar)", "multi-line block comments are only used as comment-only lines", "error texts are not compared (they carry positions)"})
 	defer r.Flush()
 	c13CorpusOnce.Do(loadC13Corpus)
@@ -283,6 +293,9 @@ func TestC12(t *testing.T) {
 		case base <= 5:
 			src = c13CorpusSrc[gen.Uniform(0, len(c13CorpusSrc)-1).Draw(t, "corpus")]
 			baseKind = "suite"
+		case base <= 7 && gen.Uniform(0, 2).Draw(t, "multiline") == 0:
+			src = c12MultilineBases[gen.Uniform(0, len(c12MultilineBases)-1).Draw(t, "multiline-base")]
+			baseKind = "multi-line-strings"
 		case base <= 7:
 			src = c12ImportBases[gen.Uniform(0, len(c12ImportBases)-1).Draw(t, "import-base")]
 			others["helper.tsh"] = c12Helper
@@ -348,6 +361,16 @@ func TestC12(t *testing.T) {
 		c := layoutCase{Kind: "layout-pair", Property: "C12", Others: others, Original: src, Relaid: relaid, Edits: kinds}
 		if kind, msg := checkLayoutPair(c); kind != "" {
 			r.FailCase(t, rep.Sig{"kind": kind, "edits": strings.Join(kinds, "+"), "base": baseKind}, msg+"\n--- original\n"+src+"--- relaid\n"+relaid, c)
+		}
+		// the whole file saved with CRLF line ends - also the line breaks inside multi-line string literals, which an
+		// editor converts like every other (Go: carriage returns inside raw string literals are discarded from the value)
+		if !strings.Contains(src, "\r") && gen.Uniform(0, 2).Draw(t, "whole-file-crlf") == 0 {
+			crlf := strings.ReplaceAll(src, "\n", "\r\n")
+			r.Class("edit:whole-file-crlf")
+			cc := layoutCase{Kind: "layout-pair", Property: "C12", Others: others, Original: src, Relaid: crlf, Edits: []string{"whole-file-crlf"}}
+			if kind, msg := checkLayoutPair(cc); kind != "" {
+				r.FailCase(t, rep.Sig{"kind": kind, "edits": "whole-file-crlf", "base": baseKind}, msg+"\n--- original\n"+src, cc)
+			}
 		}
 	})
 }
